@@ -258,3 +258,13 @@ func (e *UnboundedAccountIsNotLast) Message() string {
 func (*UnboundedAccountIsNotLast) Severity() Severity {
 	return WarningSeverity
 }
+
+type ZeroDenominatorPortion struct{}
+
+func (e *ZeroDenominatorPortion) Message() string {
+	return "The denominator of a portion cannot be zero"
+}
+
+func (*ZeroDenominatorPortion) Severity() Severity {
+	return ErrorSeverity
+}
